@@ -9,6 +9,8 @@ A design is a plain dict:
             {'kind': 'names', 'nets': [net, ...]  (last = output), 'rows': [(a, b or None)]}
             {'kind': 'latch', 'toks': [net or word, ...]}]   each with 'cname', 'attr', 'param'
   conns    [(net, net)]
+  conn_pos 'late' (after the instance statements; default), 'early' (before them), 'split' (the first one
+           before, the others after)
   clock    [word] or None
   comments [[word]]    file-level comments
 A net is (name, bit or None): None is written `name`, a bit `name[bit]`; both `name` and `name[0]`
@@ -19,17 +21,19 @@ every one of them is a separate switch so that a failure can be attributed):
   hdr_gap         a comment or blank line between .model and .inputs/.outputs
   outputs_first   .outputs before .inputs
   info_comment    a comment line between an instance statement and its .cname/.attr/.param
-  conn_early      .conn before the statements that use the merged nets
-  conn_twice      the same net in two .conn statements
   latch3          .latch in out init  (three operands)
   latch_mix       a two-operand .latch before a five-operand one
   no_final_end    the last model is not closed by .end
   trailing_comment  `# text` after a statement on the same line
   unused_prim_first  the file starts with a declared black box that nothing instances
+(conn_early / conn_twice were quirks until merge_wires was repaired - the merged net keeps the name of the
+first operand and the other name stands for it; they are ordinary shapes of gen_design now: conn_pos, chains
+of .conn, nets spelled like the cable name <a>_<i>_<b>_<j> the old reader invented.  render / effective_design
+still understand the two names for the corpus files written with them.)
 """
 import json, random
 
-QUIRKS = ['hdr_gap', 'outputs_first', 'info_comment', 'conn_early', 'conn_twice', 'latch3', 'latch_mix',
+QUIRKS = ['hdr_gap', 'outputs_first', 'info_comment', 'latch3', 'latch_mix',
           'no_final_end', 'trailing_comment', 'unused_prim_first']
 
 PRIM_NAMES = ['AND2', 'INV', 'FDRE', 'LUT4', 'BUFG', 'CARRY4', 'RAMB18', 'OBUF', 'IBUF', 'MUXF7', 'DSP48E1', 'X_y.z']
@@ -196,6 +200,35 @@ def gen_design(rng, size=None, hier=False):
             break
         used_cables.add(a[0])
         d['conns'].append((a, b))
+    # shapes the reader mishandled before the repair of merge_wires (findings conn-before-use, conn-same-net-twice,
+    # conn-merge-name-capture, conn-renumbers-bus): a net named by several .conn, .conn ahead of the statements
+    # that use its nets, a net spelled like the cable name the old reader invented for a merge.  The further
+    # operands are nets nobody drives and no other .conn names, so a merged net still has at most one driver.
+    def spare_net():
+        z = next((x for x in seconds if x[0] not in used_cables), None)
+        if z is None or rng.random() < 0.3:
+            counter[0] += 1
+            z = ('cc%d' % counter[0], None)
+        used_cables.add(z[0])
+        return z
+
+    if d['conns'] and rng.random() < 0.35:
+        for _ in range(rng.choice([1, 1, 2])):
+            x = rng.choice([n for c in d['conns'] for n in c])          # chain: .conn a b / .conn b c,  .conn a b / .conn a c
+            d['conns'].append((x, spare_net()))
+    if d['conns'] and rng.random() < 0.25:
+        (a, b) = rng.choice(d['conns'])
+        ghost = ('%s_%d_%s_%d' % (a[0], a[1] or 0, b[0], b[1] or 0), None)
+        if ghost[0] not in used_cables and ghost[0] not in used_names:
+            used_cables.add(ghost[0])
+            if rng.random() < 0.5:
+                d['conns'].append((ghost, spare_net()))                  # .conn a b / .conn a_0_b_0 c
+            else:
+                counter[0] += 1
+                inst = {'kind': 'names', 'nets': [ghost, ('gh%d' % counter[0], None)], 'rows': [('1', '1')]}
+                info(inst)
+                d['insts'].append(inst)
+    d['conn_pos'] = rng.choice(['late', 'late', 'late', 'early', 'split']) if d['conns'] else 'late'
     if rng.random() < 0.1:
         d['clock'] = ['clk']
     for _ in range(rng.choice([0, 0, 1, 2])):
@@ -344,16 +377,16 @@ def render(design, rng, quirks=(), style=None):
     conns = list(design['conns'])
     if 'conn_twice' in q and conns:
         conns.append((conns[0][0], conn_twice_extra(design)))
-    if 'conn_early' in q:
-        for (a, b) in conns:
-            emit(['.conn', net_tok(a), net_tok(b)], allow_cont=False)
+    pos = 'early' if 'conn_early' in q else design.get('conn_pos', 'late')
+    n_early = {'late': 0, 'early': len(conns), 'split': 1}[pos]
+    for (a, b) in conns[:n_early]:
+        emit(['.conn', net_tok(a), net_tok(b)], allow_cont=False)
     for inst in insts:
         inst_lines(inst)
         filler()
-    if 'conn_early' not in q:
-        for (a, b) in conns:
-            emit(['.conn', net_tok(a), net_tok(b)], allow_cont=False)
-            filler()
+    for (a, b) in conns[n_early:]:
+        emit(['.conn', net_tok(a), net_tok(b)], allow_cont=False)
+        filler()
     last_is_top = not declared
     if not ('no_final_end' in q and last_is_top):
         emit(['.end'], allow_cont=False)
@@ -495,7 +528,9 @@ def describe(design):
     kinds = {}
     for i in design['insts']:
         kinds[i['kind']] = kinds.get(i['kind'], 0) + 1
+    cables = [n[0] for c in design['conns'] for n in c]
     return {'insts': len(design['insts']), 'kinds': kinds, 'conns': len(design['conns']),
+            'conn_pos': design.get('conn_pos', 'late'), 'conn_chain': len(cables) != len(set(cables)),
             'ports': len(design['ports']), 'prims': len(design['prims']),
             'bus_nets': sum(1 for i in design['insts'] for pr in i.get('pairs', []) if pr[1] != 'unconn' and pr[1][1] is not None),
             'unconn': sum(1 for i in design['insts'] for pr in i.get('pairs', []) if pr[1] == 'unconn')}
